@@ -217,6 +217,13 @@ def _worker(prop, tier, verif_seed, wid, nworkers, budget_s, max_runs, known_sig
                     st["nontrivial"].add(dg[:16])
         else:
             st["evals"] = st.get("evals", 0) + 1
+        if res.harness_error and str(res.harness_error).startswith("step cap"):
+            # a bounded run that reached its step bound decides nothing (the livelock detector and the
+            # quiescence oracles are what catch a server that stops making progress); tolerated in small numbers
+            st["inconclusive"] = st.get("inconclusive", 0) + 1
+            st.setdefault("inconclusive_first", "run %d: %s" % (i, res.harness_error))
+            i += nworkers
+            continue
         if res.harness_error:
             st["harness_errors"].append("run %d: %s" % (i, res.harness_error))
             if len(st["harness_errors"]) > 3:
@@ -465,6 +472,14 @@ def main(argv=None):
         agg["samples"].extend(st["samples"])
         harness_errors.extend(st["harness_errors"])
         violations_out.extend(st["violations"])
+        agg["inconclusive"] = agg.get("inconclusive", 0) + st.get("inconclusive", 0)
+        if st.get("inconclusive_first") and not agg.get("inconclusive_first"):
+            agg["inconclusive_first"] = st["inconclusive_first"]
+    if agg.get("inconclusive"):
+        print("note: %d of %d run(s) ended at their step bound and decide nothing (first: %s)" % (
+            agg["inconclusive"], agg["runs"], agg.get("inconclusive_first")))
+        if agg["inconclusive"] > max(5, 0.005 * agg["runs"]):
+            harness_errors.append("too many runs ended at their step bound: %d of %d" % (agg["inconclusive"], agg["runs"]))
     if harness_errors:
         print("HARNESS-ERROR %d run(s) failed inside the harness; first:\n%s" % (
             len(harness_errors), harness_errors[0]))
